@@ -286,6 +286,14 @@ m("compound-guard-two-ifs", ["C02"], "keep", "parser.go",
 m("compound-guard-op-only", ["C02"], "break", "parser.go",
   "			if !(c.Op == op && c.AllOrDistinct == allOrDistinct) {", "			if c.Op != op {")
 
+
+m("unicode-escape-ascii-fastpath", ["C14", "C15", "C01"], "keep", "lexer.go",
+  "				var buf [utf8.MaxRune]byte\n				n := utf8.EncodeRune(buf[:], rune(u))\n				content = append(content, buf[:n]...)",
+  "				if u < 0x80 {\n					content = append(content, byte(u))\n				} else {\n					var buf [utf8.UTFMax]byte\n					n := utf8.EncodeRune(buf[:], rune(u))\n					content = append(content, buf[:n]...)\n				}")
+m("unicode-escape-latin1-fastpath", ["C14", "C15"], "break", "lexer.go",
+  "				var buf [utf8.MaxRune]byte\n				n := utf8.EncodeRune(buf[:], rune(u))\n				content = append(content, buf[:n]...)",
+  "				if u <= 0xFF {\n					content = append(content, byte(u))\n				} else {\n					var buf [utf8.UTFMax]byte\n					n := utf8.EncodeRune(buf[:], rune(u))\n					content = append(content, buf[:n]...)\n				}")
+
 def sh(cmd, cwd=None):
     return subprocess.run(cmd, shell=True, cwd=cwd, capture_output=True, text=True)
 
